@@ -289,3 +289,25 @@ def small_spec(kind, nitems=1, nframes=3, mask=None, fmt=None, seed=0):
         s["map"] = list(range(nitems))
         s["plats"] = [{"frames": fr(6)} for i in range(nitems)]
     return s
+
+
+def inject_inf(rng, spec):
+    """put +-inf into some samples, including the presence-defining first component.  Such blocks are NOT
+    in the domain of the round-trip properties (numpy's masked_invalid makes the library treat inf in the first
+    component as a missing frame), but the size agreement of C02 must hold for them too."""
+    key = {"data3D": "tracks", "emg": "tracks", "force3D": "tracks", "platData": "plats"}.get(spec["t"])
+    if not key:
+        return spec
+    inf = float("inf")
+    for it in spec[key]:
+        fr = it["frames"]
+        for k, f in enumerate(fr):
+            if f is None or rng.random() > 0.3:
+                continue
+            v = rng.choice([inf, -inf])
+            if isinstance(f, list):
+                j = 0 if rng.random() < 0.6 else rng.randrange(len(f))
+                f[j] = v
+            else:
+                fr[k] = v
+    return spec
